@@ -1,7 +1,338 @@
-(* WireLv.v — wire interfaces of the "lv" area (see docs/AGENT_GUIDE.md for the id range).
-   [run_lv c] receives the whole case (first element = interface id). *)
+(* WireLv.v — wire interfaces of the "lv" area (ids 40-49): C14, list and vector
+   procedures.  [run_lv c] receives the whole case (first element = interface id).
+
+   40 npool step*   an operation sequence over a pool of objects held in p0, p1, ...
+                    (see harness/src/area_lv.rs for the grammar).  Every step is
+                    (define p<k> (<op> operand...)); the model pushes the operand values
+                    exactly as the compiled code does (a global: the slot content, a
+                    quoted datum: maybe_put_cell), runs the builtin through the CALL
+                    wrapper and binds the accumulator.
+   41 npool step*   the same, printing only the last step (circular data).           *)
 From Coq Require Import String.
-From MW Require Import Model.Base Model.Datum.
+From MW Require Import Model.Base Model.F64 Model.Num Model.Datum Model.TransformDef
+  Model.VmTypes Model.Heap Model.VmBase Model.ListVec Model.PreludeLists.
 Open Scope N_scope.
 
-Definition run_lv (c : list N) : list N := S_ "BADCASE".
+Definition LV_FUEL : nat := N.to_nat 6000.
+Definition SIZE_BUDGET : Z := 1000.
+
+(* ------------------------------------------------------------------ parsing *)
+Inductive operand := OPool (i : N) | ODatum (c : cell) | OFun (f : N).
+
+Fixpoint take_n {A} (n : nat) (l : list A) : option (list A * list A) :=
+  match n with
+  | O => Some ([], l)
+  | S k => match l with
+           | [] => None
+           | x :: r => match take_n k r with Some (a, b) => Some (x :: a, b) | None => None end
+           end
+  end.
+
+Fixpoint parse_datum (f : nat) (c : list N) : option (cell * list N) :=
+  match f with
+  | O => None
+  | S f' =>
+      match c with
+      | 1 :: s :: m :: r => Some (CNum (Fixnum (if s =? 1 then - Z.of_N m else Z.of_N m)), r)
+      | 2 :: b :: r => Some (CBool (negb (b =? 0)), r)
+      | 3 :: ch :: r => Some (CChar ch, r)
+      | 4 :: k :: r => if k <? 26 then Some (CSym [97 + k], r) else None
+      | 5 :: r => Some (CNil, r)
+      | 6 :: bits :: r => Some (CNum (Float (f64_of_bits (Z.of_N bits))), r)
+      | 7 :: n :: r => match take_n (N.to_nat n) r with Some (s, r') => Some (CStr s, r') | None => None end
+      | 8 :: n :: r =>
+          match parse_data f' (N.to_nat n) r with
+          | Some (l, r') =>
+              match parse_datum f' r' with
+              | Some (t, r'') => Some (mk_list l t, r'')
+              | None => None
+              end
+          | None => None
+          end
+      | 9 :: n :: r =>
+          match parse_data f' (N.to_nat n) r with
+          | Some (l, r') => Some (CVec l, r')
+          | None => None
+          end
+      | _ => None
+      end
+  end
+with parse_data (f : nat) (n : nat) (c : list N) : option (list cell * list N) :=
+  match f with
+  | O => None
+  | S f' =>
+      match n with
+      | O => Some ([], c)
+      | S k =>
+          match parse_datum f' c with
+          | Some (d, r) =>
+              match parse_data f' k r with
+              | Some (l, r') => Some (d :: l, r')
+              | None => None
+              end
+          | None => None
+          end
+      end
+  end.
+
+Definition parse_operand (f : nat) (c : list N) : option (operand * list N) :=
+  match c with
+  | 0 :: i :: r => Some (OPool i, r)
+  | 10 :: g :: r => if (g =? 0) || (48 <=? g) then None else Some (OFun g, r)
+  | _ => match parse_datum f c with Some (d, r) => Some (ODatum d, r) | None => None end
+  end.
+
+Fixpoint parse_operands (f : nat) (n : nat) (c : list N) : option (list operand * list N) :=
+  match n with
+  | O => Some ([], c)
+  | S k =>
+      match parse_operand f c with
+      | Some (o, r) =>
+          match parse_operands f k r with
+          | Some (l, r') => Some (o :: l, r')
+          | None => None
+          end
+      | None => None
+      end
+  end.
+
+Fixpoint parse_steps (f : nat) (c : list N) : option (list (N * list operand)) :=
+  match f with
+  | O => None
+  | S f' =>
+      match c with
+      | [] => Some []
+      | op :: n :: r =>
+          if (48 <=? op) || (64 <? n) then None
+          else
+            match parse_operands (S (length c + length c)) (N.to_nat n) r with
+            | Some (ops, r') =>
+                if (op =? 0) && negb (n =? 1) then None
+                else match parse_steps f' r' with
+                     | Some l => Some ((op, ops) :: l)
+                     | None => None
+                     end
+            | None => None
+            end
+      | _ => None
+      end
+  end.
+
+(* -------------------------------------------------------------- evaluation *)
+Definition put_datum (c : cell) : M vcell := fun s =>
+  match maybe_put_cell (hp s) (st s) c with
+  | Ok (v, h, x) => ROk v (with_store (with_heap s h) x)
+  | Err e => RErr e [] s
+  | Panic k => RPanic k
+  | NoFuel => RNoFuel
+  end.
+
+(* the value the compiled operand expression leaves in %acc *)
+Definition eval_operand (pool : list vcell) (o : operand) : M vcell :=
+  match o with
+  | OPool i => match list_get pool i with Some v => ret v | None => fail E_OTHER end
+  | ODatum c => put_datum c               (* MOVI (maybe_put_cell datum) %acc, compile.rs:636-641 *)
+  | OFun f => hput (VBuiltin f)           (* the global slot of a procedure holds a pointer *)
+  end.
+Fixpoint eval_operands (pool : list vcell) (l : list operand) : M (list vcell) :=
+  match l with
+  | [] => ret []
+  | o :: r => dom v <- eval_operand pool o; dom vs <- eval_operands pool r; ret (v :: vs)
+  end.
+
+Section Ops.
+Let F := LV_FUEL.
+
+(* first-order procedures by op id (the table OPS of area_lv.rs) *)
+Definition apply_op1 (op : N) (args : list vcell) : M vcell :=
+  let b := apply_builtin in
+  match op with
+  | 1 => b cons_ args | 2 => b (car F) args | 3 => b (cdr F) args
+  | 4 => b set_car args | 5 => b set_cdr args
+  | 6 => p_list args | 7 => p_length F args
+  | 8 => b (append F) args | 9 => b (reverse F) args
+  | 10 => b (list_tail F) args | 11 => b (list_ref F) args
+  | 12 => p_mem F eq_b args | 13 => p_mem F eqv_b args | 14 => p_mem F (equal_b F) args
+  | 15 => p_ass F eq_b args | 16 => p_ass F eqv_b args | 17 => p_ass F (equal_b F) args
+  | 20 => b (is_list F) args
+  | 21 => b vector args | 22 => b make_vector args | 23 => b vector_length args
+  | 24 => b vector_ref args | 25 => b vector_set args | 26 => b vector_fill args
+  | 27 => b vector_to_list args | 28 => b (list_to_vector F) args
+  | 29 => b vector_copy args | 30 => b vector_mut_copy args
+  | 31 => b (equal_b F) args | 32 => b eq_b args | 33 => b eqv_b args
+  | 34 => b is_pair_b args | 35 => b is_null args | 36 => b is_vector args
+  | 37 => p_cadr F args | 38 => p_cddr F args | 39 => p_caar F args | 40 => p_cdar F args
+  | 41 => b not_b args | 42 => b is_boolean args | 43 => b is_char args
+  | 44 => b is_symbol args | 45 => b is_string args | 46 => b is_procedure args
+  | 47 => b is_number args
+  | _ => fail E_OTHER
+  end.
+
+(* map / for-each take the procedure as their first argument *)
+Definition fn_of (fobj : vcell) : M (list vcell -> M vcell) :=
+  dom fv <- hderef fobj;
+  match fv with
+  | VBuiltin f => ret (apply_op1 f)
+  | _ => ret (fun _ => fail E_OTHER)        (* CALL of a non-procedure: InvalidProcedure *)
+  end.
+Definition apply_op (op : N) (args : list vcell) : M vcell :=
+  match op with
+  | 18 => match args with
+          | fobj :: lists => dom fn <- fn_of fobj; p_map F fn lists
+          | [] => fail E_OTHER
+          end
+  | 19 => match args with
+          | fobj :: lists => dom fn <- fn_of fobj; p_for_each F fn lists
+          | [] => fail E_OTHER
+          end
+  | _ => apply_op1 op args
+  end.
+End Ops.
+
+Definition run_step (pool : list vcell) (op : N) (ops : list operand) : M vcell :=
+  dom args <- eval_operands pool ops;
+  if op =? 0 then match args with [v] => ret v | _ => fail E_OTHER end
+  else apply_op op args.
+
+(* ----------------------------------------------------------------- printing *)
+(* canonical written form, the same as `canon` of area_lv.rs *)
+Fixpoint canon (c : cell) {struct c} : text :=
+  match c with
+  | CBool b => if b then [35;116] else [35;102]
+  | CChar ch => [35;92;120] ++ show_hex ch
+  | CNil => [40;41]
+  | CNum (Fixnum z) => show_Z z
+  | CNum (Float x) => [35;105] ++ show_hex (Z.to_N (f64_bits x))
+  | CNum _ => [35;110]
+  | CPair a d =>
+      let fix rest (d : cell) {struct d} : text :=
+        match d with
+        | CNil => [41]
+        | CPair na nd => [32] ++ canon na ++ rest nd
+        | other => [32;46;32] ++ canon other ++ [41]
+        end in
+      40 :: canon a ++ rest d
+  | CStr s => [34] ++ esc_text s ++ [34]
+  | CSym s => esc_text s
+  | CVec l =>
+      let fix elems (l : list cell) : text :=
+        match l with
+        | [] => []
+        | [x] => canon x
+        | x :: r => canon x ++ [32] ++ elems r
+        end in
+      [35;40] ++ elems l ++ [41]
+  | CCont => S_ "#<cont>"
+  | CMacro => S_ "#<macro>"
+  | CProc _ => S_ "#<proc>"
+  | CUndef => S_ "#<undef>"
+  | CVoid => S_ "#<void>"
+  end.
+
+(* the node budget probe %sz / %szv of area_lv.rs: pairs and vectors cost one *)
+Fixpoint sz (f : nat) (s : vm) (v : vcell) (n : Z) {struct f} : Z :=
+  match f with
+  | O => (-1)%Z
+  | S f' =>
+      if (n <? 0)%Z then n
+      else
+        match heap_deref (hp s) v with
+        | Ok (VPair a d) => sz f' s (VPtr d) (sz f' s (VPtr a) (n - 1)%Z)
+        | Ok (VVec vid) =>
+            match tget (vecs (st s)) vid with
+            | Some l =>
+                (fix go (l : list vcell) (n : Z) : Z :=
+                   match l with
+                   | [] => n
+                   | x :: r => if (n <? 0)%Z then n else go r (sz f' s x n)
+                   end) l (n - 1)%Z
+            | None => (-1)%Z
+            end
+        | Ok _ => n
+        | _ => (-1)%Z
+        end
+  end.
+
+Definition show_obj (s : vm) (v : vcell) : text :=
+  if (sz (N.to_nat 1200) s v SIZE_BUDGET <? 0)%Z then S_ "#<big>"
+  else match get_as_cell builtin_name_default (hp s) (st s) LV_FUEL v with
+       | Ok c => canon c
+       | _ => S_ "#<big>"
+       end.
+
+Definition eq_probe (s : vm) (a b : vcell) : N :=
+  match apply_builtin eq_b [a; b] s with
+  | ROk (VBool true) _ => 49
+  | ROk (VBool false) _ => 48
+  | _ => 63
+  end.
+
+(* the objects 0..k whose form changed since they were last printed *)
+Fixpoint show_changed (s : vm) (i : N) (pool : list vcell) (last : list text) : text * list text :=
+  match pool with
+  | [] => ([], [])
+  | v :: r =>
+      let t := show_obj s v in
+      let '(prev, lr) := match last with [] => (None, []) | p :: q => (Some p, q) end in
+      let '(out, l2) := show_changed s (i + 1) r lr in
+      let same := match prev with Some p => text_eqb p t | None => false end in
+      ((if same then [] else 32 :: show_N i ++ [61] ++ t) ++ out, t :: l2)
+  end.
+
+Definition eq_row (s : vm) (pool : list vcell) (k : vcell) : text :=
+  map (fun v => eq_probe s k v) pool.
+
+Fixpoint eq_matrix (s : vm) (done rest : list vcell) : text :=
+  match rest with
+  | [] => []
+  | v :: r => 32 :: eq_row s done v ++ eq_matrix s (done ++ [v]) r
+  end.
+
+(* ------------------------------------------------------------------- driver *)
+Fixpoint run_steps (last_only : bool) (npool : N) (k : N) (steps : list (N * list operand))
+    (s : vm) (pool : list vcell) (last : list text) (out : text) : text :=
+  match steps with
+  | [] => if last_only then out else out ++ S_ " | F" ++ eq_matrix s [] pool
+  | (op, ops) :: rest =>
+      let r := run_step pool op ops s in
+      match r with
+      | RPanic _ => out ++ S_ " | PANIC"
+      | RNoFuel => out ++ S_ " | NOFUEL"
+      | ROk _ _ | RErr _ _ _ =>
+          let '(status, v, s1) := match r with
+                                  | ROk v s1 => (S_ "OK", v, s1)
+                                  | RErr _ _ s1 => (S_ "ERR", VBool false, s1)
+                                  | _ => ([], VUndef, s)
+                                  end in
+          let s2 := with_sp s1 0 in
+          let pool' := pool ++ [v] in
+          if last_only then
+            (match rest with
+             | [] => run_steps last_only npool (k + 1) rest s2 pool' last
+                       (out ++ S_ " | " ++ status ++ [32] ++ show_obj s2 v)
+             | _ => run_steps last_only npool (k + 1) rest s2 pool' last out
+             end)
+          else if k <? npool then run_steps last_only npool (k + 1) rest s2 pool' last out
+          else
+            let '(chg, last') := show_changed s2 0 pool' last in
+            run_steps last_only npool (k + 1) rest s2 pool' last'
+              (out ++ S_ " | " ++ status ++ chg ++ S_ " E" ++ eq_row s2 pool v)
+      end
+  end.
+
+Definition run_seq (last_only : bool) (c : list N) : text :=
+  match c with
+  | npool :: r =>
+      match parse_steps (S (length r)) r with
+      | Some steps => run_steps last_only npool 0 steps (vm_empty 8192) [] [] (S_ "S")
+      | None => S_ "BADCASE"
+      end
+  | [] => S_ "BADCASE"
+  end.
+
+Definition run_lv (c : list N) : list N :=
+  match c with
+  | 40 :: r => run_seq false r
+  | 41 :: r => run_seq true r
+  | _ => S_ "BADCASE"
+  end.
